@@ -159,8 +159,18 @@ func viaArg(v ssa.Value, via *ssa.Call) ssa.Value {
 
 // stripConv removes value-preserving conversions.
 func stripConv(v ssa.Value) ssa.Value {
-	for {
+	for i := 0; i < 16; i++ {
 		switch x := v.(type) {
+		case *ssa.UnOp:
+			// a load from a variable cell that is written exactly once (a local captured by a function
+			// literal, or the captured variable seen from inside the literal) reads that value
+			if x.Op == token.MUL {
+				if sv := cellValue(x.X); sv != nil {
+					v = sv
+					continue
+				}
+			}
+			return v
 		case *ssa.Convert:
 			v = x.X
 		case *ssa.ChangeType:
@@ -173,6 +183,42 @@ func stripConv(v ssa.Value) ssa.Value {
 			return v
 		}
 	}
+	return v
+}
+
+// cellValue: the single value ever stored into the variable cell addr (an Alloc, or a captured
+// variable whose cell is an Alloc of the enclosing function bound at the only place the literal is made).
+func cellValue(addr ssa.Value) ssa.Value {
+	switch a := addr.(type) {
+	case *ssa.Alloc:
+		return singleStore(a)
+	case *ssa.FreeVar:
+		lit := a.Parent()
+		if lit == nil || lit.Parent() == nil {
+			return nil
+		}
+		idx := -1
+		for i, fv := range lit.FreeVars {
+			if fv == a {
+				idx = i
+			}
+		}
+		var cell ssa.Value
+		n := 0
+		for _, b := range lit.Parent().Blocks {
+			for _, in := range b.Instrs {
+				if mc, ok := in.(*ssa.MakeClosure); ok && mc.Fn == ssa.Value(lit) && idx >= 0 && idx < len(mc.Bindings) {
+					cell = mc.Bindings[idx]
+					n++
+				}
+			}
+		}
+		if n != 1 {
+			return nil
+		}
+		return cellValue(cell)
+	}
+	return nil
 }
 
 // isLoadOfField: v == load of owner(pkg.typ).field
@@ -188,6 +234,15 @@ func (c *Ctx) heldInterproc(in ssa.Instruction, ref lockRef, depth int) (bool, s
 	fn := in.Parent()
 	flow := c.flowMust(fn)
 	if _, ok := flow.at(in)[ref.key()]; ok {
+		return true, ""
+	}
+	// a function literal: a lock rooted at a captured variable is the enclosing function's lock
+	if sites, refs, ok := c.closureLockSites(in, ref); ok && depth > 0 {
+		for i, s := range sites {
+			if ok2, w := c.heldInterproc(s, refs[i], depth-1); !ok2 {
+				return false, "lock " + c.lockString(ref) + " not held around the function literal " + c.fnName(fn) + ": " + w
+			}
+		}
 		return true, ""
 	}
 	pi := paramIndex(fn, ref.root)
@@ -232,4 +287,50 @@ func (c *Ctx) flowMust(fn *ssa.Function) *lockFlowResult {
 	f := c.lockFlow(fn, lockset{}, true)
 	c.flows[fn] = f
 	return f
+}
+
+// closureLockSites: `in` is inside a function literal and the lock is rooted at one of its captured
+// variables and not released before `in`: the call sites of the literal (where it is made and called)
+// with the lock expressed in the enclosing function's terms.
+func (c *Ctx) closureLockSites(in ssa.Instruction, ref lockRef) ([]ssa.CallInstruction, []lockRef, bool) {
+	fn := in.Parent()
+	fv, isFV := ref.root.(*ssa.FreeVar)
+	if !isFV || fn.Parent() == nil {
+		return nil, nil, false
+	}
+	idx := -1
+	for i, v := range fn.FreeVars {
+		if v == fv {
+			idx = i
+		}
+	}
+	if idx < 0 {
+		return nil, nil, false
+	}
+	if _, ok := c.lockFlow(fn, lockset{ref.key(): ref}, true).at(in)[ref.key()]; !ok {
+		return nil, nil, false
+	}
+	sites := c.sitesOf(fn)
+	if len(sites) == 0 {
+		return nil, nil, false
+	}
+	var refs []lockRef
+	for _, s := range sites {
+		if _, isGo := s.(*ssa.Go); isGo {
+			return nil, nil, false
+		}
+		mc, isMC := s.Common().Value.(*ssa.MakeClosure)
+		if !isMC || idx >= len(mc.Bindings) {
+			return nil, nil, false
+		}
+		var r lockRef
+		if al, isAl := mc.Bindings[idx].(*ssa.Alloc); isAl && singleStore(al) != nil {
+			r = refOf(singleStore(al))
+		} else {
+			r = refOf(mc.Bindings[idx])
+		}
+		r.path += ref.path
+		refs = append(refs, r)
+	}
+	return sites, refs, true
 }
